@@ -4,8 +4,10 @@ CONSTANTS
   MaxFailures = 1
   DrainOnSuccess = FALSE
   SkipUnchanged = FALSE
+  RearmOnlyAfterTrigger = FALSE
   Strategy = "REPLICA"
   MaxSteps = 16
+  Periodic = FALSE
 VIEW GenView
 ACTION_CONSTRAINT StrataEmit
 CHECK_DEADLOCK FALSE
